@@ -2,17 +2,20 @@
 from .. import gen, solved, sysdesc, wire
 
 CLAIM = True
-LEVEL_TEXT = ("Theorems (Lean 4, any linearly ordered field): on a live supply with polarity kept, the voltage law the solver applies "
-              "to each of the 11 kinds equals the documented transfer law. The model is tied to the code on every run: for hundreds "
+LEVEL_TEXT = ("Theorems (Lean 4, any linearly ordered field): on a live supply the voltage law and the current law the solver applies "
+              "to each kind equal the documented transfer laws (mux instance in Props/C05); the table row of a component shows Vin = its "
+              "parent's Vout, Iout = the sum of the currents its children draw, and feeds the laws exactly the (Vin, Iout) of the row, so "
+              "a row's deviation from the law is the sweep residual; pass-through kinds mirror the input polarity, regulated kinds "
+              "follow the sign of vo, currents do not depend on the polarity. The model is tied to the code on every run: for hundreds "
               "of random trees the table cells Vin/Vout/Iin/Iout/Parent are re-assembled by the model from the implementation's own "
               "(v,i) and must agree to 1e-9, one more model sweep must reproduce (v,i) within the solver's exit test, and the "
               "documented laws are evaluated exactly on every returned row (the failing-input search). Partial: negative Source "
               "with series resistance (finding F01) is excluded by hypothesis and reported as KNOWN-FINDING.")
 LEVEL_NOTE = "Proof covers the law level; tree-level clauses are checked by correspondence + oracle on generated systems."
 MODULE = "SysLoss.Props.C01"
-THEOREMS = [
-    "SysLoss.C01.volt_refines_spec_partial",
-]
+THEOREMS = ["SysLoss.C01." + t for t in (
+    "volt_refines_spec_partial", "curr_refines_spec", "row_linkage", "row_root", "sweep_args_are_row",
+    "mirror_passthrough", "regulated_ignores_input_sign")]
 RULE = ("random power trees (1-3 sources, <=24 nodes, all 11 kinds, 25% tabulated parameters, both polarities, "
         "<=1 PMux) built and solved through the public API with vtol=itol=1e-10 or the defaults; non-trivial = "
         "solved successfully and has >= 3 components; distinct by canonical description")
